@@ -1,3 +1,4 @@
+mod cli;
 mod codec;
 mod http;
 mod durrun;
